@@ -61,25 +61,15 @@ theorem np_applyDefaults : ∀ (props : List (String × PropT)) (m : List (Strin
       · simp_all
       · exact np_applyDefaults rest _ hr
 
-theorem np_unserProps {rec : Rec} {env : Env} : ∀ (props : List (String × PropT)) (acc : List (String × V)),
-    (∀ np, np ∈ props → RecNP rec env np.2.ty) → NP (unserProps rec env props acc)
-  | [], acc, _ => by simp [unserProps]
-  | (id, p) :: rest, acc, h => by
-    have hp := h (id, p) (by simp)
-    have hr : ∀ np, np ∈ rest → RecNP rec env np.2.ty := fun np hnp => h np (List.mem_cons_of_mem _ hnp)
-    simp only [unserProps]
+theorem np_objEntryU {rec : Rec} {env : Env} {props : List (String × PropT)}
+    (h : ∀ np, np ∈ props → RecNP rec env np.2.ty) (k : String) (d : V) : NP (objEntryU rec env props k d) := by
+  unfold objEntryU
+  split
+  · simp
+  · rename_i p hp
     split
-    · exact np_unserProps rest acc hr
-    · split
-      · simp
-      · rename_i d _ _
-        have h1 := np_addSeg id (hp .U d)
-        split
-        · exact np_unserProps rest _ hr
-        · simp
-        · rename_i hpanic
-          exact absurd hpanic h1
-        · simp
+    · simp
+    · exact np_addSeg _ (h (k, p) (lookupS_mem hp) .U d)
 
 theorem mem_of_lookupS_props {k : String} {props : List (String × PropT)} {p : PropT}
     (h : lookupS k props = some p) : (k, p) ∈ props := lookupS_mem h
@@ -99,7 +89,7 @@ theorem np_objRaw {rec : Rec} {env : Env} {props : List (String × PropT)}
     · simp
     · split
       · simp
-      · exact np_bind (np_applyDefaults _ _ hdef) (fun _ => np_unserProps _ _ hrec)
+      · exact np_bind (np_applyDefaults _ _ hdef) (fun _ => np_forSV (np_objEntryU hrec) _)
 
 theorem np_objCompatMap {rec : Rec} {env : Env} {props : List (String × PropT)}
     (hrec : ∀ np, np ∈ props → RecNP rec env np.2.ty) (m : List (String × V)) : NP (objCompatMap rec env props m) := by
